@@ -2,7 +2,7 @@
    the model, which has no component shared between evaluators; data-race freedom of the
    Go runtime, the generated code's lazily initialised statics and the ANTLR caches is
    sampled with the race detector). *)
-From Rules Require Import Eval Histories.
+From Rules Require Import Eval Histories SourceProofs.
 
 (* for EVERY interleaving of per-goroutine operations, each goroutine observes exactly what
    it observes running alone *)
